@@ -27,7 +27,34 @@ def _fields_behind(body, local):
                     fs = [e[1:] for e in p[1:] if e.startswith(".") and not e[1:].isdigit() and not e.startswith(".upv")]
                     if fs:
                         out.add(".".join(fs))
-    return out, {c["ncallee"] for c in calls}
+    seps = set()
+    for c in calls:
+        if (c["ncallee"] or "").endswith("::join") or "Join" in (c["ncallee"] or ""):
+            for a in c["args"]:
+                if a[0] == "c" and a[1].startswith('"'):
+                    seps.add(a[1].strip('"'))
+                elif a[0] in ("cp", "mv"):
+                    v = _const_str(body, a[1][0])
+                    if v is not None:
+                        seps.add(v)
+    return out, {c["ncallee"] for c in calls} | {"join:" + x for x in seps}
+
+
+def _const_str(body, local, depth=4):
+    """string literal a local refers to, following plain copies and references"""
+    if depth < 0:
+        return None
+    for b in body.blocks:
+        for st in b["stmts"]:
+            if st["d"] != [local]:
+                continue
+            rv = st["rv"]
+            if rv["k"] == "use" and rv["a"][0] == "c" and rv["a"][1].startswith('"'):
+                return rv["a"][1].strip('"')
+            src = rv["a"][1][0] if rv["k"] == "use" and rv["a"][0] in ("cp", "mv") else rv["p"][0] if rv["k"] == "ref" else None
+            if src is not None:
+                return _const_str(body, src, depth - 1)
+    return None
 
 
 def events(body):
@@ -104,6 +131,7 @@ def model(body):
                     break
         flags.setdefault(e["flag"], []).append({
             "takes_value": takes, "value_fields": set().union(*[v["fields"] for v in vals]) if vals else set(),
+            "joined_with": sorted({c[5:] for v in vals for c in v["calls"] if c.startswith("join:")}),
             "guard_fields": guard, "conditional": cond, "line": e["line"], "bb": e["bb"]})
         order.append(e["flag"])
     # positional values: non-flag, non-const events that are not the value of a preceding flag
@@ -166,7 +194,7 @@ def clap_args(body):
             if d is not None and d["args"] and d["args"][0][0] == "c":
                 ident = d["args"][0][1].strip('"')
         long = act = None
-        takes_values_inferred = False
+        delim = None
         cur = t
         for _ in range(60):
             nxt = [u for u in users.get(cur["d"][0], []) if (u["ncallee"] or "").startswith("clap_builder::builder::arg::Arg::") or (u["ncallee"] or "").endswith("Command::arg")]
@@ -178,10 +206,20 @@ def clap_args(body):
                 break
             if nc.endswith("Arg::long") and cur["args"][1][0] == "c":
                 long = cur["args"][1][1].strip('"')
+            if nc.endswith("Arg::value_delimiter"):
+                a1 = cur["args"][1]
+                if a1[0] == "c":
+                    delim = a1[1].strip("'")
+                else:
+                    d = defs.get(src(op_local(a1)))
+                    if d is not None and d["args"] and d["args"][0][0] == "c":
+                        delim = d["args"][0][1].strip("'")
+                    else:
+                        delim = "?"
             if nc.endswith("Arg::action"):
                 al = src(op_local(cur["args"][1])) if op_local(cur["args"][1]) is not None else None
                 if al in aggs:
                     act = aggs[al]["variant"]
         if long:
-            out[long] = {"id": ident, "action": act}
+            out[long] = {"id": ident, "action": act, "delimiter": delim}
     return out
